@@ -401,3 +401,147 @@ def main(argv):
 
 if __name__ == '__main__':
     main(sys.argv)
+
+
+# ------------------------------------------------------------------------------------------------
+# 're-declaration' family: a model is formulated / solved, then something is declared AGAIN (or in addition),
+# then it is formulated / solved once more.  `redecl_build(gen, final)` builds the model with the declarations in
+# `final` already in their last version (the fresh reference); `redecl_apply(h, r)` re-declares on a live model.
+# ------------------------------------------------------------------------------------------------
+REDECL = {
+    'dro_box': ['prob_new', 'prob_same', 'supp_all', 'supp_k', 'supp_loc', 'supp_iloc', 'expt_add', 'row'],
+    'dro_l2': ['prob_new', 'prob_same', 'supp_all', 'supp_k', 'supp_loc', 'supp_iloc', 'expt_add', 'row'],
+    'ro_box': ['row', 'bound'],
+    'ro_ldr': ['row', 'bound'],
+    'ro_poly': ['row', 'bound', 'forall_new', 'forall_same'],
+    'lp': ['row', 'bound'],
+}
+REDECL_CLS = {'dro_box': 'lp', 'dro_l2': 'soc', 'ro_box': 'lp', 'ro_ldr': 'lp', 'ro_poly': 'lp', 'lp': 'lp'}
+
+
+def _dro_supp(h, s, new):
+    """Support constraints of scenario s (fresh constraint objects every time)."""
+    rso = _rs()['rso']
+    z = h['z']
+    if h['gen'] == 'dro_box':
+        d = 0.25 if new else 0.0
+        return (z >= h['zlo'][s] + d, z <= h['zhi'][s] - d)
+    zh = h['zhat'][s] + (0.25 if new else 0.0)
+    return (z >= 0, z <= 4.0, rso.norm(z - zh) <= h['u'], h['u'] <= 3)
+
+
+def _dro_prob(h, new):
+    p = h['m'].p
+    return (p >= 0.25, p <= 0.75) if new else (p == 0.5,)
+
+
+def redecl_apply(h, r):
+    rs = _rs()
+    E = rs['E']
+    m = h['m']
+    if r == 'row':
+        if h['gen'] in ('dro_box', 'dro_l2'):
+            m.st(1.0 * h['x'][0] >= 0.5)
+        elif h['gen'] == 'lp':
+            m.st(h['x'][0] - h['x'][1] >= -0.5)
+        else:
+            m.st(h['x'][0] + h['z'][0] * h['x'][1] >= 0.75 if h['gen'] == 'ro_box' else 1.0 * h['x'][0] >= 0.625)
+    elif r == 'bound':
+        m.st(h['x'][1] >= 0.5)
+    elif r in ('prob_new', 'prob_same'):
+        h['fset'].probset(*_dro_prob(h, r == 'prob_new'))
+    elif r == 'supp_all':
+        for s in range(2):
+            h['fset'][s].suppset(*_dro_supp(h, s, True))
+    elif r == 'supp_k':
+        h['fset'][1].suppset(*_dro_supp(h, 1, True))
+    elif r == 'supp_loc':
+        h['fset'].loc[1].suppset(*_dro_supp(h, 1, True))
+    elif r == 'supp_iloc':
+        h['fset'].iloc[1].suppset(*_dro_supp(h, 1, True))
+    elif r == 'expt_add':
+        if h['gen'] == 'dro_box':
+            h['fset'].exptset(E(h['z']) <= 1.875)
+        else:
+            h['fset'].exptset(E(h['u']) <= 0.375)
+    elif r in ('forall_new', 'forall_same'):
+        h['c'].forall(h['zs_new'](r == 'forall_new'))
+    else:
+        raise ValueError(r)
+
+
+def redecl_build(gen_name, final=()):
+    """Fresh model whose declarations are the FINAL ones (the re-declarations in `final` replace / extend the base
+    declarations at the place where the base declares them; added rows and bounds come last)."""
+    rs = _rs()
+    rso, E = rs['rso'], rs['E']
+    final = tuple(final)
+    if gen_name in ('dro_box', 'dro_l2'):
+        box = gen_name == 'dro_box'
+        m = rs['dro'].Model(2)
+        h = {'gen': gen_name, 'm': m}
+        if box:
+            z = m.rvar(1)
+            h.update(z=z, zlo=np.array([[0.25], [1.75]]), zhi=np.array([[1.75], [3.25]]))
+        else:
+            z = m.rvar(2)
+            u = m.rvar()
+            h.update(z=z, u=u, zhat=np.array([[1.0, 0.5], [2.5, 1.5]]))
+        fset = m.ambiguity()
+        h['fset'] = fset
+        new_s = {0: 'supp_all' in final, 1: any(r in final for r in ('supp_all', 'supp_k', 'supp_loc', 'supp_iloc'))}
+        for s in range(2):
+            fset[s].suppset(*_dro_supp(h, s, new_s[s]))
+        if box:
+            fset.exptset(E(z) <= 2.0, E(z) >= 1.5)
+            if 'expt_add' in final:
+                fset.exptset(E(z) <= 1.875)
+        else:
+            fset.exptset(E(u) <= 0.5)
+            if 'expt_add' in final:
+                fset.exptset(E(u) <= 0.375)
+        fset.probset(*_dro_prob(h, 'prob_new' in final))
+        n = 1 if box else 2
+        x = m.dvar(n)
+        y = m.dvar(n)
+        y.adapt(0)
+        y.adapt(1)
+        y.adapt(z)
+        if not box:
+            y.adapt(u)
+        h.update(x=x, y=y)
+        c = np.array([-0.5] if box else [-1.0, -0.75])
+        d = np.array([1.5] if box else [1.5, 1.0])
+        m.minsup(c @ x + E(d @ y), fset)
+        m.st(y >= x - z, y >= 0, y <= 8)
+        m.st(x >= 0, x <= 4)
+        if 'row' in final:
+            m.st(1.0 * x[0] >= 0.5)
+        return m, h
+    # ro / deterministic generators: the registered generator, then the additions
+    given, _, _ = arrays_for(gen_name)
+    if gen_name == 'ro_poly':
+        m = rs['ro'].Model()
+        x = m.dvar(2)
+        z = m.rvar(2)
+        a = given
+
+        def zs_new(new):
+            return (a['C'] @ z <= (a['d'] * (0.5 if new else 1.0)),)
+        m.min(a['c'] @ x)
+        c1 = ((a['a0'] + a['B'] @ z) @ x >= 1.5)
+        m.st(c1.forall(zs_new('forall_new' in final)))
+        m.st((x[0] - z @ x <= 6).forall(zs_new(False)))
+        m.st(x >= 0, x <= 4)
+        h = {'gen': gen_name, 'm': m, 'x': x, 'z': z, 'c': c1, 'zs_new': zs_new}
+    else:
+        m, ex = build(gen_name, given)
+        h = {'gen': gen_name, 'm': m}
+        if gen_name == 'lp':
+            h['x'] = m.rc_model.vars[1]
+        else:
+            h.update(x=ex['x'], z=ex['z'])
+    for r in final:
+        if r in ('row', 'bound'):
+            redecl_apply(h, r)
+    return m, h
